@@ -769,13 +769,6 @@ theorem wellScoped_all (p : Char → Bool) (g : VIn) (outer : List S) (hk : Look
 
 /-! ### the outside names of the skeleton are not bound by the body -/
 
-def fixedLocals : List S := [t "o", t "init_kwargs", t "i", t "field", t "v1", t "e", t "extra_keys"]
-
-/-- every outside name the skeleton can use, whatever the class -/
-def allOuter : List S :=
-  [t "cls", t "fields", t "MISSING", t "re_raise", t "raise_missing_fields", t "locals", t "Exception", t "__pre_from_dict__",
-   t "aliases", t "len", t "set", t "UnknownKeysError", t "LOG", t "safe_get"]
-
 /-- a name the body may bind: one of seven fixed locals, a field variable, or a name a value expression binds -/
 def Bindable (g : VIn) (n : S) : Prop :=
   n ∈ fixedLocals ∨ (∃ m, n = fieldVar m) ∨ (∃ f ∈ g.fields, n ∈ f.exprWrites ∨ n ∈ f.exprBinds)
@@ -919,5 +912,47 @@ theorem wellScoped_inputs (p : Char → Bool) (g : VIn) (outer : List S) (hk : L
     (h2 : ∀ f ∈ g.fields, ∀ n, (n ∈ f.exprWrites ∨ n ∈ f.exprBinds) → n ∉ allOuter)
     (h3 : ∀ f ∈ g.fields, ∀ n ∈ f.exprReads, n = t "v1" ∨ (n ∈ outer ∧ ¬ Bindable g n)) : wellScoped p g outer = true :=
   wellScoped_all p g outer hk (outerOk_of p g outer h1 h2) (exprsOk_of p g outer h3)
+
+
+/-! ### the executable premises are sound -/
+
+theorem shaped_fieldVar (m : S) : shaped (fieldVar m) = true := by
+  have h2 : (t "__v").isSuffixOf (fieldVar m) = true := by
+    rw [List.isSuffixOf_iff_suffix]
+    exact ⟨'_' :: '_' :: m, by simp [fieldVar, t]⟩
+  have h1 : (t "__").isPrefixOf (fieldVar m) = true := by simp [fieldVar, t, List.isPrefixOf]
+  simp [shaped, h1, h2]
+
+theorem not_bindable_of (g : VIn) (n : S) (h : bindableB g n = false) : ¬ Bindable g n := by
+  simp only [bindableB, Bool.or_eq_false_iff] at h
+  obtain ⟨⟨h1, h2⟩, h3⟩ := h
+  rintro (hb | ⟨m, hb⟩ | ⟨f, hf, hb⟩)
+  · simp [hb] at h1
+  · rw [hb, shaped_fieldVar] at h2; cases h2
+  · have : g.fields.any (fun f => f.exprWrites.contains n || f.exprBinds.contains n) = true := by
+      rw [List.any_eq_true]
+      exact ⟨f, hf, by rcases hb with hb | hb <;> simp [hb]⟩
+    rw [this] at h3; cases h3
+
+/-- **what the driver evaluates on every generated function: when the test on the inputs passes, the theorem applies** -/
+theorem premisesB_sound (p : Char → Bool) (g : VIn) (outer : List S) (h : premisesB g outer = true) : wellScoped p g outer = true := by
+  simp only [premisesB, Bool.and_eq_true, List.all_eq_true] at h
+  obtain ⟨⟨⟨h0, h1⟩, h2⟩, h3⟩ := h
+  refine wellScoped_inputs p g outer ?_ ?_ ?_ ?_
+  · intro f hf
+    have := h0 f hf
+    simp only [lookupOkB, Bool.and_eq_true, bne_iff_ne, ne_eq] at this
+    exact this
+  · intro n hn
+    simpa using h1 n hn
+  · intro f hf n hn
+    have := h2 f hf n (by simpa [List.mem_append] using hn)
+    simpa using this
+  · intro f hf n hn
+    have := h3 f hf n hn
+    simp only [Bool.or_eq_true, beq_iff_eq, Bool.and_eq_true, Bool.not_eq_true'] at this
+    rcases this with h | ⟨h4, h5⟩
+    · exact Or.inl h
+    · exact Or.inr ⟨by simpa using h4, not_bindable_of g n h5⟩
 
 end DW.GenLoadV1
